@@ -132,9 +132,14 @@ func runFilterSession(plan FilterPlan, onStep func(fs *FilterSession, st *StepOb
 	g := s.G
 	fs.Trunk = g.Extend(g.Genesis, plan.ChainLen, chaingen.PaceNormal)
 	tip := fs.Trunk[len(fs.Trunk)-1]
+	if plan.SnapOmit {
+		plan.Behaviours = snapOmitLies(plan.Behaviours, fs.Trunk)
+		fs.Plan = plan
+	}
 	if err := s.Open(); err != nil {
 		return fs, err
 	}
+	plan.BlockFault.install(fs)
 	s.View.SetTip(tip)
 	for i, b := range plan.Behaviours {
 		p, err := s.AddPeer(tip.Height, wire.SFNodeNetwork|wire.SFNodeWitness|wire.SFNodeCF)
@@ -231,15 +236,24 @@ func runFilterSession(plan FilterPlan, onStep func(fs *FilterSession, st *StepOb
 	}
 
 	reorgsLeft := plan.Reorgs
-	idle := 0
+	idle, retried := 0, 0
 	for round := 0; round < 40 && idle < 3; round++ {
+		faultsBefore := s.Net.BlockFaultCount()
 		progress, err := fs.Round()
 		if err != nil {
 			return fail(err)
 		}
-		if progress {
+		faults := s.Net.BlockFaultCount() - faultsBefore
+		fs.RoundBlockFails = append(fs.RoundBlockFails, faults)
+		switch {
+		case progress:
 			idle = 0
-		} else {
+		case faults > 0 && retried < 6:
+			// The block download failed by script: cfHandler would run the
+			// round again later; a bounded number of such rounds does not
+			// count towards ending the session.
+			retried++
+		default:
 			idle++
 		}
 		// Between rounds: growth and reorganisations of the honest chain.
@@ -515,7 +529,11 @@ func CheckC03(fs *FilterSession, st *StepObs, final bool) []Finding {
 		// honest value is the one that gets committed, so the session (it
 		// ends after three rounds without progress) must not end with the
 		// filter headers behind the block headers.
-		if fs.ProvableGivenCheckpoints() && !fs.Plan.FalseCP && fs.cpsDescribeChain(post) && len(pf) < len(post) {
+		// (A session in whose last rounds the scripted block download was
+		// still failing gets no verdict here: without the block nothing about
+		// the pending conflict is decidable.)
+		if fs.ProvableGivenCheckpoints() && !fs.Plan.FalseCP && fs.cpsDescribeChain(post) && len(pf) < len(post) &&
+			!fs.BlockDownloadFailing() {
 			h := len(pf)
 			who := ""
 			if nd := fs.G.Lookup(post[h].BlockHash()); nd != nil {
